@@ -425,8 +425,13 @@ def gen_name(rng, dialect):
     """Returns (name, class, representable)."""
     r = rng.random()
     pool = ODL_NAMES if dialect in ("ODL", "PDS3") else PVL_NAMES
-    if r < 0.90:
+    if r < 0.88:
         return rng.choice(pool), "name:plain", True
+    if r < 0.90 and dialect in ("PVL", "ISIS"):
+        # characters of the Latin-1 half of the PVL character set, also ones
+        # that Python's str methods take for white space, digits or letters
+        return rng.choice(("a\xa0", "\xa0b", "n\xe9", "\xb5m", "x\xb2", "\xbd", "stra\xdfe",
+                           "\xe9\xe8", "a\xadb", "\xd7", "I\xf1")), "name:latin1", True
     if r < 0.93:
         # ISIS itself reads a dash at the end of a line as a continuation, so
         # a block name ending in '-' is not representable there
